@@ -200,6 +200,14 @@ class DULServiceProvider(threading.Thread):
             self.to_service_user.put(pdu.AAbortPDU(source=0, reason_diag=0))
             raise
         finally:
+            if self.dul_socket is not None:
+                # Service is stopped while transport connection is still open (association was
+                # not idle): connection is of no use any more, so release it
+                try:
+                    self.dul_socket.close()
+                except socket.error:
+                    pass
+                self.dul_socket = None
             self._is_killed.set()
 
     def _check_network(self):
